@@ -114,10 +114,19 @@ func libraryCompress(c *mon.C, msg []byte, level int, resettable bool, endMode i
 	}
 	parts := splitRandom(c, msg, 8)
 	for i, p := range parts {
-		if _, err := w.Write(p); err != nil {
-			return nil, pattern, fmt.Errorf("Write: %v", err)
+		if c.Rng.Intn(4) == 0 {
+			// through io.Copy (chunked source; any io.ReaderFrom fast path of the writer included)
+			n, err := io.Copy(w, xport.NewChunker(p, xport.Plans(c.Rng.Int63(), nil)[c.Rng.Intn(11)]))
+			if err != nil || int(n) != len(p) {
+				return nil, pattern, fmt.Errorf("io.Copy into the writer: %d of %d bytes, %v", n, len(p), err)
+			}
+			pattern += fmt.Sprintf("Copy%d ", len(p))
+		} else {
+			if _, err := w.Write(p); err != nil {
+				return nil, pattern, fmt.Errorf("Write: %v", err)
+			}
+			pattern += fmt.Sprintf("W%d ", len(p))
 		}
-		pattern += fmt.Sprintf("W%d ", len(p))
 		if i < len(parts)-1 && c.Rng.Intn(3) == 0 {
 			if err := w.Flush(); err != nil {
 				return nil, pattern, fmt.Errorf("Flush: %v", err)
@@ -167,14 +176,23 @@ func libraryDecompress(c *mon.C, comp []byte, plan xport.Plan, byteReader bool, 
 	r := wsflate.NewReader(src, func(r io.Reader) wsflate.Decompressor { return flate.NewReader(r) })
 	var out []byte
 	p := make([]byte, buf)
-	for {
-		n, err := r.Read(p)
-		out = append(out, p[:n]...)
-		if err == io.EOF {
-			break
+	if buf == 4095 {
+		// drained through io.Copy (any io.WriterTo fast path of the reader included)
+		var b bytes.Buffer
+		if _, err := io.Copy(&b, r); err != nil {
+			return b.Bytes(), err
 		}
-		if err != nil {
-			return out, err
+		out = b.Bytes()
+	} else {
+		for {
+			n, err := r.Read(p)
+			out = append(out, p[:n]...)
+			if err == io.EOF {
+				break
+			}
+			if err != nil {
+				return out, err
+			}
 		}
 	}
 	if err := r.Close(); err != nil {
@@ -265,7 +283,7 @@ func subWriterVsZlib() mon.Sub {
 				}
 				br := (c.I+k)%2 == 0
 				c.Count(1)
-				got, err := libraryDecompress(c, comp, plan, br, []int{1, 7, 512, 32768}[(c.I+k)%4])
+				got, err := libraryDecompress(c, comp, plan, br, []int{1, 7, 512, 32768, 4095 /* = io.Copy */}[(c.I+k)%5])
 				if err != nil || !bytes.Equal(got, msg) {
 					det["plan"], det["byte_reader"], det["err"] = plan.String(), br, fmt.Sprint(err)
 					c.Fail("self-roundtrip", fmt.Sprintf("decompression reader does not recover the library's own output (err=%v, %d vs %d bytes)", err, len(got), len(msg)), det)
@@ -321,7 +339,7 @@ func subZlibVsReader() mon.Sub {
 				}
 				br := (c.I+k)%2 == 0
 				c.Count(1)
-				got, err := libraryDecompress(c, comp, plan, br, []int{1, 7, 512, 32768}[(c.I+k)%4])
+				got, err := libraryDecompress(c, comp, plan, br, []int{1, 7, 512, 32768, 4095 /* = io.Copy */}[(c.I+k)%5])
 				if err != nil || !bytes.Equal(got, msg) {
 					det["plan"], det["byte_reader"], det["err"] = plan.String(), br, fmt.Sprint(err)
 					det["first_diff"] = firstDiff(got, msg)
@@ -387,6 +405,40 @@ func subFrames() mon.Sub {
 			if df.Header != h || !bytes.Equal(df.Payload, msg) {
 				c.Fail("frames/roundtrip", "CompressFrame/DecompressFrame do not round-trip to the same header and payload", det)
 				return
+			}
+			// results of the allocating helpers belong to the caller: a later call must not change an earlier result
+			{
+				hl := wsflate.DefaultHelper
+				other := payload(c, (class+1)%nClasses)
+				if len(other) > 70000 {
+					other = other[:70000]
+				}
+				c1, e1 := hl.Compress(msg)
+				keep := append([]byte(nil), c1...)
+				c2, e2 := hl.Compress(other)
+				c3, _ := hl.Compress(append([]byte("x"), msg...))
+				if e1 != nil || e2 != nil || !bytes.Equal(c1, keep) {
+					c.Fail("helpers/compress-result-changed", fmt.Sprintf("the result of Helper.Compress changed when Compress was called again (errors %v, %v)", e1, e2), det)
+					return
+				}
+				d1, e1 := hl.Decompress(keep)
+				keepd := append([]byte(nil), d1...)
+				d2, e2 := hl.Decompress(c2)
+				hl.Decompress(c3)
+				if e1 != nil || e2 != nil || !bytes.Equal(d1, keepd) || !bytes.Equal(d1, msg) || !bytes.Equal(d2, other) {
+					c.Fail("helpers/decompress-result-changed", fmt.Sprintf("Helper.Decompress(Compress(m)) != m, or an earlier result changed when it was called again (errors %v, %v)", e1, e2), det)
+					return
+				}
+				f2 := ws.Frame{Header: ws.Header{Fin: true, OpCode: ws.OpBinary, Length: int64(len(other))}, Payload: append([]byte(nil), other...)}
+				keepcf := append([]byte(nil), cf.Payload...)
+				keepdf := append([]byte(nil), df.Payload...)
+				if cf2, err := wsflate.CompressFrame(f2); err == nil {
+					wsflate.DecompressFrame(cf2)
+				}
+				if !bytes.Equal(cf.Payload, keepcf) || !bytes.Equal(df.Payload, keepdf) {
+					c.Fail("frames/result-changed", "the payload returned by CompressFrame / DecompressFrame changed when the helpers were called for another frame", det)
+					return
+				}
 			}
 			// non-final frames are refused by both helpers
 			nf := f
